@@ -127,6 +127,15 @@ def run(e: Engine, rep: Report):
                  '= C02-R2.6: enqueue() returns after the storage write it '
                  'acknowledges has finished (it joins the greenlet that '
                  'writes, not a helper that only starts it)', only={'R2.6'})
+    rep.rule('R4.14', 'whatever the store wrote it can read back: the '
+             'storage modules load their pickles with the loader that '
+             'mirrors the dump (pickle.load / pickle.loads) - no Unpickler '
+             'sub-class with a find_class of its own (an allow-list is a '
+             'second statement of what an envelope may contain, and the '
+             'first message that holds anything else - a datetime in a '
+             'header object, an application value in envelope.client - is '
+             'written, acknowledged and can never be loaded again)')
+    r414(e, rep)
     rep.floor('R4.1', 6, 'file-system write sites / ordering obligations')
 
 
@@ -883,3 +892,46 @@ def r412(e: Engine, rep: Report, rule: str = 'R4.12'):
         rep.ok(rule, 'slimta.queue', 'no function defined in a loop is '
                'handed to a deferred runner', reason='scan of the queue '
                'package', nontrivial=False)
+
+
+# ------------------------------------------------------------------ R4.14
+def r414(e: Engine, rep: Report):
+    mods = ('slimta.diskstorage', 'slimta.redisstorage',
+            'slimta.cloudstorage', 'slimta.queue.dict')
+    n = 0
+    for cq, c in sorted(e.p.classes.items()):
+        if not c.module.name.startswith(mods):
+            continue
+        bases = [ast.unparse(b) for b in c.node.bases]
+        if not any(b.endswith('Unpickler') for b in bases):
+            continue
+        n += 1
+        rep.evaluations += 1
+        own = [nm for nm in ('find_class', 'persistent_load')
+               if nm in c.methods]
+        rep.check(not own, 'R4.14', cq,
+                  'loader `%s` looks classes up as pickle does' % c.name,
+                  '%s overrides %s of the Unpickler the store loads its '
+                  'files with: classes outside its list are refused, but '
+                  'the dump side writes whatever the envelope holds - a '
+                  'message with such a value is stored and acknowledged, '
+                  'and every later get() / the start-up scan raises for it: '
+                  'it is never attempted again' % (c.name, ', '.join(own)),
+                  loc=c.methods[own[0]].loc() if own else None,
+                  reason='no find_class / persistent_load override')
+    loads = 0
+    for f in sorted(e.p.functions.values(), key=lambda f: f.qname):
+        if not f.module.name.startswith(mods):
+            continue
+        for x in walk_own(f.node):
+            if isinstance(x, ast.Call) and isinstance(x.func, ast.Attribute) \
+                    and x.func.attr in ('loads', 'load') and \
+                    ast.unparse(x.func.value).endswith('pickle'):
+                loads += 1
+                rep.functions.add(f.qname)
+    rep.evaluations += 1
+    if n == 0:
+        rep.ok('R4.14', 'slimta.diskstorage', 'no Unpickler sub-class in the '
+               'storage modules; %d pickle.load(s) call(s)' % loads,
+               reason='the standard loader reads what the dump wrote',
+               nontrivial=False)
